@@ -691,6 +691,11 @@ class LaunchRun(object):
                b'Oct 03 00:00:00.000 [notice] Opening Socks listener on 127.0.0.1:9150\n'][:n_pre]
         where = '127.0.0.1:9051' if self.tcp else '/sim/data/control.socket'
         self.script = [('log', l) for l in pre]
+        if ch.chance(1, 30, 'chattytor'):
+            # a Tor started with a verbose log: some 90 KiB on stdout before it gets anywhere
+            self.sim.probe('tor-prints-more-than-64KiB')
+            for i in range(45):
+                self.script.append(('log', ('Oct 03 00:00:00.%03d [debug] %s\n' % (i, 'x' * 2000)).encode('ascii')))
         self.listener_line = ('Oct 03 00:00:00.000 [notice] Opening Control listener on %s\n' % where).encode('ascii')
         self.script.append(('listener', self.listener_line))
         if ch.chance(1, 2, 'opened'):
